@@ -47,10 +47,10 @@ def corpus(ctx, directory, tag):
     return _run_jobs(ctx, jobs)
 
 
-def generate(ctx, regimes):
+def generate(ctx, regimes, first=0):
     """regimes: [(name, n_cases, length, extra_args)] -> {name: [trace]} ; one process per case."""
     jobs = []
-    k = 0
+    k = first
     for name, n, length, extra in regimes:
         for i in range(n):
             tr = ctx.work / f"gen-{name}-{i}.trace"
@@ -70,8 +70,8 @@ def judge(ctx, stream, traces, extra_args_of=lambda tr: (), max_shrinks=2):
     """Runs the driver over the traces. A failing case whose signature is a recorded finding is
     reported as such without shrinking; anything else is shrunk and reported as a violation."""
     found = False
-    shrunk = 0
-    seen_sigs = set()
+    # shrinking costs minutes: at most `max_shrinks` per run of the check, one per signature
+    seen_sigs = ctx.__dict__.setdefault("_seen_sigs", set())
     for tr in traces:
         vf = Path(str(tr) + "." + stream.replace(" ", "_") + ".verdict")
         if not vlib.run_model(ctx, stream, tr, vf):
@@ -95,10 +95,9 @@ def judge(ctx, stream, traces, extra_args_of=lambda tr: (), max_shrinks=2):
             if vlib.match_known(ctx.pid, s):
                 vlib.report_violation(ctx, "implementation-vs-oracle", {}, signature=s)
                 continue
-            if s in seen_sigs or shrunk >= max_shrinks:
+            if s in seen_sigs or len(seen_sigs) >= max_shrinks:
                 continue
             seen_sigs.add(s)
-            shrunk += 1
             extra = list(extra_args_of(tr))
             small = vlib.shrink(ctx, "system", stream, c, extra, budget=40)
             sf = vlib.first_failure(small) or ff
@@ -144,11 +143,17 @@ def run(ctx, regimes_quick, regimes_thorough, rule, assumptions):
         # 1. hand-written scenarios and minimised past failures first, then the recorded findings
         found |= judge(ctx, strict, corpus(ctx, vlib.VERIF / "corpus" / "system", "corpus"))
         found |= judge(ctx, strict, corpus(ctx, FINDINGS_DIR, "finding"))
-        # 2. generated histories per regime
-        by = generate(ctx, regimes)
+        # 2. generated histories per regime (traces are large: judged and dropped regime by regime)
+        k0 = 0
         for name, n, length, extra in regimes:
+            by = generate(ctx, [(name, n, length, extra)], first=k0)
+            k0 += n
             always_due = any(a.startswith("before_next=") for a in extra)
-            found |= judge(ctx, tol if always_due else strict, by.get(name, []))
+            traces = by.get(name, [])
+            found |= judge(ctx, tol if always_due else strict, traces)
+            for tr in traces:
+                for f in Path(tr).parent.glob(Path(tr).name + "*"):
+                    f.unlink(missing_ok=True)
     else:
         ctx.failed_obligations.append("harness-build")
     vlib.obligations_broken(ctx, found)
